@@ -13,6 +13,7 @@ import common
 import findings
 import gen
 import pipecheck
+import ser
 from common import VERIF
 
 SQL_REFUSALS = {"SubqueryError", "NotSupportedError"}
@@ -295,6 +296,26 @@ def run(ctx, res, prop, profile, n_quick=300, n_thorough=4000, probe_ids=(), ext
                 cand.append((i, b, {"kind": "l3", "fields": diff,
                                     "what": "L3: Model/SqlCompile.compile and the real SqlImpl.compile_ast differ in "
                                             + ", ".join(sqlcompile.FIELD.get(x, str(x)) for x in diff)}))
+    # ---- L3 for Polars: the transcribed compile_ast (Model/PlCompile.v) against the real one
+    pl_items = [((i, "polars"), ser.db_to_coq(cases[i]["tables"]), o["polars"].ast_coq, o["polars"].pl3)
+                for i, o in enumerate(obs) if o.get("polars") is not None and o["polars"].pl3 is not None]
+    pl_res, pl_err = ({}, [])
+    if pl_items:
+        import sqlcompile
+        pl_res, pl_err = sqlcompile.evaluate_polars(prop.lower(), pl_items)
+        if not ctx.build_ok and pl_err:
+            pl_res, pl_err = {}, []
+        for e in pl_err:
+            res.violations.append({"what": "L3 (Polars) correspondence cases did not evaluate in Coq", "found_input": False,
+                                   "payload": {"correspondence": f"{prop} L3 (Model/PlCompile.v)", "error": e}})
+        for (i, b), (dom, diff, fl) in pl_res.items():
+            stats[f"polars:L3:{'not modelled' if not dom else 'differs' if diff else 'equal'}"] += 1
+            if dom and fl:
+                stats["polars:L3:satisfies pflat_ok (compile-correctness theorem applies)"] += 1
+            if diff:
+                cand.append((i, b, {"kind": "l3", "fields": diff,
+                                    "what": "L3: Model/PlCompile.pl_compile and the real Polars compile_ast differ in "
+                                            + ", ".join(sqlcompile.PL_FIELD.get(x, str(x)) for x in diff)}))
     # ---- shrink, match known findings, report
     hit = collections.Counter()
     reported = 0
@@ -376,6 +397,8 @@ def run(ctx, res, prop, profile, n_quick=300, n_thorough=4000, probe_ids=(), ext
     cov = res.coverage
     res.traces += sum(1 for v in verdicts.values() if v == 0)
     cov["cases_satisfying_wf_hypothesis"] = cov.get("cases_satisfying_wf_hypothesis", 0) + sum(pipecheck.WF.values())
+    cov["l3_polars_model_equal"] = cov.get("l3_polars_model_equal", 0) + sum(1 for v in pl_res.values() if v[0] and not v[1])
+    cov["l3_polars_cases_satisfying_pflat_ok"] = cov.get("l3_polars_cases_satisfying_pflat_ok", 0) + sum(1 for v in pl_res.values() if v[0] and v[2])
     cov["l3_compile_model_equal"] = cov.get("l3_compile_model_equal", 0) + sum(1 for v in l3_res.values() if v[0] and not v[1])
     cov["l3_cases_satisfying_flat_ok"] = cov.get("l3_cases_satisfying_flat_ok", 0) + sum(1 for v in l3_res.values() if v[0] and v[2])
     cov["l2_cache_traces_equal"] = cov.get("l2_cache_traces_equal", 0) + sum(1 for k, v in l2.items() if v[0] == 0 and verdicts.get(k) != 7)
